@@ -296,6 +296,9 @@ class SolveProperty(Property):
         return ">" in fw
 
     def shrink_candidates(self, case_line):
+        if case_line.startswith("dyn "):
+            import props_dyn
+            return props_dyn.DynProperty.shrink_candidates(self, case_line)
         toks = case_line.split(" ")
         p = kv(case_line)
         fw = p["fw"]
